@@ -451,6 +451,16 @@ class _Synonyms(ast.NodeTransformer):
     def visit_Subscript(self, n):
         self.generic_visit(n)
         n.slice = self._slice_call(n.slice)
+        # P[a:][k] is P[a + k] ; P[a:][b:] is P[a + b:]    (non-negative integer constants)
+        v = n.value
+        if isinstance(v, ast.Subscript) and isinstance(v.slice, ast.Slice) and v.slice.upper is None and v.slice.step is None and isinstance(v.slice.lower, ast.Constant) \
+                and isinstance(v.slice.lower.value, int) and v.slice.lower.value >= 0 and isinstance(n.ctx, ast.Load):
+            a_ = v.slice.lower.value
+            if isinstance(n.slice, ast.Constant) and isinstance(n.slice.value, int) and not isinstance(n.slice.value, bool) and n.slice.value >= 0:
+                return ast.copy_location(ast.Subscript(value=v.value, slice=ast.Constant(value=a_ + n.slice.value), ctx=ast.Load()), n)
+            if isinstance(n.slice, ast.Slice) and n.slice.upper is None and n.slice.step is None and isinstance(n.slice.lower, ast.Constant) and isinstance(n.slice.lower.value, int) \
+                    and n.slice.lower.value >= 0:
+                return ast.copy_location(ast.Subscript(value=v.value, slice=ast.Slice(lower=ast.Constant(value=a_ + n.slice.lower.value), upper=None, step=None), ctx=ast.Load()), n)
         if isinstance(n.slice, ast.Tuple):
             n.slice.elts = [self._slice_call(e) for e in n.slice.elts]
             # X[:, :]  (two or more full slices: array-only syntax, a view of all of X) read as a value is X
@@ -460,6 +470,10 @@ class _Synonyms(ast.NodeTransformer):
     def visit_Call(self, n):
         self.generic_visit(n)
         f = U(n.func)
+        # K._make(t)  ->  K(*t)     (the NamedTuple class method: positional construction from an iterable)
+        if isinstance(n.func, ast.Attribute) and n.func.attr == "_make" and isinstance(n.func.value, ast.Name) and n.func.value.id.lstrip("_")[:1].isupper() \
+                and len(n.args) == 1 and not n.keywords and not isinstance(n.args[0], ast.Starred):
+            return ast.copy_location(ast.Call(func=n.func.value, args=[ast.Starred(value=n.args[0], ctx=ast.Load())], keywords=[]), n)
         if any(isinstance(a, ast.Starred) and isinstance(a.value, (ast.Tuple, ast.List)) for a in n.args):
             args = []
             for a in n.args:
@@ -475,7 +489,7 @@ class _Synonyms(ast.NodeTransformer):
             v = "item__m"
             while v in used:
                 v += "_"
-            call = ast.Call(func=n.args[0], args=[ast.Name(id=v, ctx=ast.Load())], keywords=[])
+            call = self.visit(ast.Call(func=n.args[0], args=[ast.Name(id=v, ctx=ast.Load())], keywords=[]))      # (K._make(x) -> K(*x), np.add(..) -> .., on the call just built)
             return ast.copy_location(ast.GeneratorExp(elt=call, generators=[ast.comprehension(target=ast.Name(id=v, ctx=ast.Store()), iter=n.args[1], ifs=[], is_async=0)]), n)
         # operator.add(a, b) / np.add(a, b) -> a + b   (likewise sub, mul, truediv, matmul, and_, or_, xor; two positional arguments only)
         _BIN = {"operator.add": ast.Add, "operator.sub": ast.Sub, "operator.mul": ast.Mult, "operator.truediv": ast.Div, "operator.matmul": ast.MatMult,
@@ -599,6 +613,105 @@ class _MatchToIf(ast.NodeTransformer):
         for x in node:
             ast.copy_location(x, n)
         return node
+
+
+def tuple_view_of_record_results(repo):
+    """A repository function whose every value-returning `return` is a construction of one NamedTuple class K hands its callers a tuple
+    with names.  For the analysis it is read as the tuple it is:
+      in the function     return K(a, b, c)                 ->  return (a, b, c)
+      in every caller     x = g(..); .. x.f1 .. x.f2 ..     ->  x__f1, x__f2, x__f3 = g(..); .. x__f1 .. x__f2 ..
+    (x bound once, every read of x a field read).  Callers that use x in another way keep the call as it is - indexing and unpacking
+    a NamedTuple already read like a tuple.  Returns the number of functions changed."""
+    import copy as _copy
+    changed = 0
+    producers = {}
+    for q, f in repo.funcs.items():
+        rets = [n for n in _walk_own(f.node) if isinstance(n, ast.Return) and n.value is not None and not (isinstance(n.value, ast.Constant) and n.value.value is None)]
+        if not rets or not all(isinstance(r.value, ast.Call) and isinstance(r.value.func, ast.Name) for r in rets):
+            continue
+        names = {r.value.func.id for r in rets}
+        if len(names) != 1:
+            continue
+        K = names.pop()
+        cq = repo.chase(f.mod, K)
+        cn = repo.classes.get(cq) if cq else None
+        fl = record_fields(repo, f.mod, K, allow_methods=True)
+        if cn is None or not fl or not any(U(b) in ("NamedTuple", "typing.NamedTuple") for b in cn.bases):
+            continue
+        ok = True
+        vals = []
+        for r in rets:
+            c = _copy.deepcopy(r.value)
+            complete_record_call(repo, f.mod, c)
+            if any(isinstance(a, ast.Starred) for a in c.args) or any(k.arg is None for k in c.keywords) or len(c.args) + len(c.keywords) != len(fl):
+                ok = False
+                break
+            d = dict(zip(fl, c.args))
+            d.update({k.arg: k.value for k in c.keywords})
+            if set(d) != set(fl):
+                ok = False
+                break
+            vals.append([d[x] for x in fl])
+        if not ok:
+            continue
+        producers[q] = (fl, rets, vals)
+    if not producers:
+        return 0
+    simple = {}
+    for q in producers:
+        simple.setdefault(q.rsplit(".", 1)[-1], []).append(q)
+    for q, (fl, rets, vals) in producers.items():
+        for r, v in zip(rets, vals):
+            r.value = ast.copy_location(ast.Tuple(elts=v, ctx=ast.Load()), r.value)
+        ast.fix_missing_locations(repo.funcs[q].node)
+        changed += 1
+    for f in repo.funcs.values():
+        for st in list(ast.walk(f.node)):
+            if not (isinstance(st, ast.Assign) and len(st.targets) == 1 and isinstance(st.targets[0], ast.Name) and isinstance(st.value, ast.Call)):
+                continue
+            fn = st.value.func
+            nm = fn.id if isinstance(fn, ast.Name) else (fn.attr if isinstance(fn, ast.Attribute) else None)
+            cands = simple.get(nm, [])
+            if len(cands) != 1:
+                continue
+            if isinstance(fn, ast.Name) and repo.chase(f.mod, fn.id) != cands[0]:
+                continue
+            fl = producers[cands[0]][0]
+            x = st.targets[0].id
+            names_ = [n for n in ast.walk(f.node) if isinstance(n, ast.Name) and n.id == x]
+            if sum(1 for n in names_ if isinstance(n.ctx, (ast.Store, ast.Del))) != 1:
+                continue
+            par = {}
+            for n in ast.walk(f.node):
+                for c in ast.iter_child_nodes(n):
+                    par[c] = n
+            loads = [n for n in names_ if isinstance(n.ctx, ast.Load)]
+            if not loads or not all(isinstance(par.get(n), ast.Attribute) and par[n].value is n and par[n].attr in fl and isinstance(par[n].ctx, ast.Load) for n in loads):
+                continue
+            new = {fld: f"{x}__{fld}" for fld in fl}
+            if any(isinstance(n, ast.Name) and n.id in new.values() for n in ast.walk(f.node)):
+                continue
+            st.targets = [ast.Tuple(elts=[ast.Name(id=new[fld], ctx=ast.Store()) for fld in fl], ctx=ast.Store())]
+
+            class R(ast.NodeTransformer):
+                def visit_Attribute(self, n):
+                    if isinstance(n.value, ast.Name) and n.value.id == x and n.attr in new and isinstance(n.ctx, ast.Load):
+                        return ast.copy_location(ast.Name(id=new[n.attr], ctx=ast.Load()), n)
+                    return self.generic_visit(n)
+            f.node = R().visit(f.node)
+            ast.fix_missing_locations(f.node)
+            changed += 1
+    return changed
+
+
+def _walk_own(fnode):
+    stack = list(ast.iter_child_nodes(fnode))
+    while stack:
+        n = stack.pop()
+        yield n
+        if isinstance(n, (ast.FunctionDef, ast.AsyncFunctionDef, ast.Lambda, ast.ClassDef)):
+            continue
+        stack.extend(ast.iter_child_nodes(n))
 
 
 def canonical_args_local(fnode):
